@@ -10,7 +10,7 @@ import sys
 
 rnd, wt, out = int(sys.argv[1]), sys.argv[2], sys.argv[3]
 os.makedirs(out, exist_ok=True)
-CLAIMED = ('C02', 'C03', 'C04', 'C05', 'C06', 'C08', 'C09', 'C10', 'C15', 'C16', 'C17', 'C18', 'C19')
+CLAIMED = ('C02', 'C03', 'C04', 'C05', 'C06', 'C08', 'C09', 'C10', 'C13', 'C15', 'C16', 'C17', 'C18', 'C19')
 excl = {}
 for d in glob.glob('/verif/seeded/*/patch.diff'):
     pid = d.split('/')[-2][:3]
@@ -53,7 +53,7 @@ In your final message, summarise each change in 3-5 lines.
         fns = sorted(excl.get(pid, []))
         txt += f"""
 
-ADDITIONAL CONSTRAINT FOR THIS ROUND: {rnd - 1} earlier round(s) have already produced changes inside these functions/sites, so yours must be somewhere else (a different function, ideally a different mechanism or a different clause of the property): {', '.join(fns)}. Look for the less obvious places: helper functions called by the anchored code, default values and table entries, data-type or layout special cases, second/third iterations of loops, error paths that should fire but would silently not, interactions between two functions that each stay individually plausible. Prefer changes whose effect needs a rare combination (a specific accelerator configuration, a boundary value, an unusual but legal operand type or layout, a second call, an ordering of operations). The current HEAD of the worktree already contains several recent bug-fix commits on top of the pinned snapshot (see `git log`); do not revert those fixes - that does not count. NOTE: with the installed NumPy 2 every end-to-end compilation raises OverflowError in Scheduler.propose_operator_buffering ((1 << 32) - np.int32); if your demonstration needs a full compile, widen that array in the demo (e.g. wrap LiveRangeGraph.get_temporal_memory_usage to return int64) and say so in the notes; prefer demonstrations that call the affected functions directly.
+ADDITIONAL CONSTRAINT FOR THIS ROUND: {rnd - 1} earlier round(s) have already produced changes inside these functions/sites, so yours must be somewhere else (a different function, ideally a different mechanism or a different clause of the property): {', '.join(fns)}. Look for the less obvious places: helper functions called by the anchored code, default values and table entries, data-type or layout special cases, second/third iterations of loops, error paths that should fire but would silently not, interactions between two functions that each stay individually plausible. Prefer changes whose effect needs a rare combination (a specific accelerator configuration, a boundary value, an unusual but legal operand type or layout, a second call, an ordering of operations). The current HEAD of the worktree already contains several recent bug-fix commits on top of the pinned snapshot (see `git log`); do not revert those fixes - that does not count. Prefer demonstrations that call the affected functions directly; a full compilation is possible but slow to set up (no .tflite files are available; graphs have to be built with the project's own Graph/Operation/Tensor classes).
 """
     open(f'{out}/{pid}.txt', 'w').write(txt)
 print("wrote", len(CLAIMED), "prompts to", out)
